@@ -13,6 +13,7 @@ import Rpki.Proofs.ManifestCodec
 import Rpki.Proofs.DerLemmas
 import Rpki.Props.C17
 import Rpki.Props.C02
+import Rpki.Proofs.CrlCodec
 namespace Rpki.Props.C05
 set_option autoImplicit false
 open Rpki.Der
@@ -79,6 +80,22 @@ theorem manifest_reencode (number : Bytes) (tu nu : X509.Civil) (es : List Manif
     ∀ m es', Manifest.decodeContent (Manifest.encodeContent number tu nu es) = some m → m.iter = some es' →
       Manifest.encodeContent m.number m.thisUpdate m.nextUpdate es' = Manifest.encodeContent number tu nu es :=
   Manifest.reencode number tu nu es hn htu hnu hy1 hy2 hord hes hsize
+
+/-- **CRL revocation list.** Whatever list of entries (valid serial numbers and calendar dates, any
+order, duplicates allowed) the builder encodes, the decoder's counting pass accepts it, the iterator
+yields exactly those entries, and `contains` answers membership of the serial number — it never
+fails. -/
+theorem crl_list_roundtrip (es : List Crl.Entry) (h : ∀ e ∈ es, Crl.EntryOk e) (s : Bytes) :
+    Crl.capture (Crl.encodeList es) = some es.length ∧ Crl.entries (Crl.encodeList es) = some es ∧
+    Crl.contains (Crl.encodeList es) s = some (decide (∃ e ∈ es, e.serial = s)) :=
+  ⟨Crl.capture_encode es h, Crl.entries_encode es h, Crl.contains_encode es h s⟩
+
+/-- For ARBITRARY captured octets the counting pass accepted (a decoded CRL, not necessarily one of
+ours): the lookup cannot fail and reports a serial revoked iff the iterator lists it. -/
+theorem crl_lookup_agrees_with_iteration (b : Bytes) (n : Nat) (h : Crl.capture b = some n) (s : Bytes) :
+    ∃ es, Crl.entries b = some es ∧ es.length = n ∧ Crl.contains b s = some (decide (∃ e ∈ es, e.serial = s)) :=
+  Crl.contains_after_capture b n h s
+
 
 /-- **Times** (both encodings) and **serial numbers** (minimal DER) round-trip — C17. -/
 theorem time_roundtrip (c : X509.Civil) (hv : X509.validCivil c = true) (hy : c.y ≤ 9999) :
